@@ -468,10 +468,13 @@ def rule_queens(F, R):
         R.violation('n_queens_gen::main / N / anchor', 'UNDECIDABLE', 'n_queens_gen::main not found'); return
     # the board-size variable: the let-binding initialised from args.queens
     nvar = None
+    import engine_l as _el
+    argf = _el.args_fields(t, c)          # `let Args { output, queens } = Args::parse();`
     for b in walk(t['body']):
         if b['k'] == 'Block':
             for s in b['stmts']:
-                if s['k'] == 'Let' and s['init'] is not None and any(x['k'] == 'Field' and x.get('field_name') == 'queens' for x in walk(s['init'])):
+                if s['k'] == 'Let' and s['init'] is not None and unwrap_pat(s['pat'])['k'] == 'Binding' and \
+                        any((x['k'] == 'Field' and x.get('field_name') == 'queens') or (x['k'] in ('VarRef', 'UpvarRef') and argf.get(x['var']) == 'queens') for x in walk(s['init'])):
                     q = unwrap_pat(s['pat'])
                     if q['k'] == 'Binding': nvar = q['var']
     if nvar is None:
